@@ -241,9 +241,11 @@ func (s *Server) Stdout() string {
 }
 
 // CrashMarks scans the child's output for signs of a crash.
-func (s *Server) CrashMarks() []string {
+func (s *Server) CrashMarks() []string { return CrashMarksIn(s.Stderr() + s.Stdout()) }
+
+// CrashMarksIn lists the marks of a Go runtime crash found in process output.
+func CrashMarksIn(text string) []string {
 	var out []string
-	text := s.Stderr() + s.Stdout()
 	for _, m := range []string{"panic:", "fatal error:", "http: panic serving", "runtime error:", "concurrent map"} {
 		if strings.Contains(text, m) {
 			out = append(out, m)
